@@ -1705,6 +1705,22 @@ theorem C03_violation_confined_witness :
         exact attr_integer _ false wAttrX rfl rfl (by decide) [53] (by decide) (by decide) (by decide) l sk [] sepsNil d rest hd)
   exact ⟨res, hr, hm, hrep, hex ⟨wBad, by simp, by decide⟩⟩
 
+/-! ### a stray `/` or `\` in front of a parameter is dropped without a word (finding
+    `detect:stray-slash-or-backslash-between-parameters`; the model agrees with the code) -/
+def strayRun (data : String) : Int × List Sev × List (MVal Nat) :=
+  match readDataSection dblOps Generated.rwLexCfg Generated.rwCfg exDict false false (stringToBytes data) with
+  | .ok r => (exitStatus r.sev, r.reported, r.mgr.insts.flatMap (fun i => i.parts.flatMap (·.vals)))
+  | .error _ => (-1, [], [])
+
+/-- `#1=A(/ 5);` - a slash that starts no comment - reads as `#1=A(5);`: nothing reported, exit status 0 -/
+theorem C03_stray_slash_dropped_witness :
+    strayRun "#1=A(/ 5);ENDSEC;END-ISO-10303-21;" = (0, [Sev.null], [.one (.atom (.int 5))]) := by decide
+
+/-- `#1=A(\N 5);` - a backslash that starts no complete print control directive (`\N\`): three characters are eaten, ReadPcd's
+    WARNING is ignored, the record reads as `#1=A(5);` -/
+theorem C03_stray_backslash_dropped_witness :
+    strayRun "#1=A(\\N 5);ENDSEC;END-ISO-10303-21;" = (0, [Sev.null], [.one (.atom (.int 5))]) := by decide
+
 /-! ### the defect behind fixes/C03-4 and its repair on the minimal input `#1=A($1);` (lenient mode) -/
 def dollarRun (keep : Bool) : M (FileResult Nat) :=
   readDataSection dblOps Generated.rwLexCfg { Generated.rwCfg with fillerKeepsError := keep } exDict false false
